@@ -1,5 +1,6 @@
 import UralModel.Lemmas.LinksFromHtml
 import UralModel.Model.UrlsFromHtml
+import UralModel.Lemmas.UrlsFromHtml
 import UralModel.Gen.HtmlPatterns
 /-!
 # C17 — HTML extraction is str/bytes-independent; links are followable and distinct
@@ -185,6 +186,25 @@ theorem links_are_urls_partial (hyp : cfg.canonicalize = false ∨ CanonPreserve
     · rw [hc] at h0; cases h0
     · exact h0 u l h6 (by simpa [finish, hc] using h7)
 
+/-- what ural's `is_url(…, only_http_https=True)` guarantees by its first lines (it strips its
+argument and refuses it unless `HTTP_PROTOCOL_RE` matches): an accepted URL, stripped, is not
+empty and starts with `http://` / `https://` -/
+def IsUrlImpliesHttp (E : Env) : Prop :=
+  ∀ u, E.isUrl u = true → strip u ≠ [] ∧ E.httpMatch (strip u) = true
+
+/-- **the yielded link itself is followable** (partial: under the hypotheses that `is_url`
+only accepts `http(s)://…` and that `canonicalize_url` preserves `is_url`, or
+`canonicalize=False`): `should_follow_href(link)` holds, provided a string matched by
+`HTTP_PROTOCOL_RE` does not start with `#`. -/
+theorem links_should_follow_partial (hyp : cfg.canonicalize = false ∨ CanonPreservesIsUrl E)
+    (hhttp : IsUrlImpliesHttp E) (hhash : ∀ u, E.httpMatch u = true → u.head? ≠ some '#')
+    (base : Str) (hrefs : List Str) :
+    ∀ l ∈ (links E cfg base hrefs).1, shouldFollowHref E l = true := by
+  intro l hl
+  have hu := links_are_urls_partial E cfg hyp base hrefs l hl
+  obtain ⟨h1, h2⟩ := hhttp l hu
+  exact (shouldFollowHref_spec E l).mpr ⟨h1, hhash _ h2, fun _ => h2⟩
+
 /-! ### witnesses and non-vacuity (closed examples, evaluated by the kernel) -/
 
 section Examples
@@ -232,6 +252,44 @@ example : shouldFollowHref toy (s " HTTPS://a.com") = true ∧ shouldFollowHref 
     shouldFollowHref toy (s "/a/b") = true ∧ shouldFollowHref toy (s "\u00a0") = false := by decide
 
 end Examples
+
+/-! ## Part B — urls_from_html: the scanners on `str` and on `bytes` -/
+
+/-- **str / bytes independence of the scan.** For every string `d`, scanning its UTF-8
+encoding with the byte scanner yields exactly the UTF-8 encodings of what the `str` scanner
+yields on `d`, in the same order (script blocks removed, anchors found, groups selected the
+same way).  Holds because the scanner is one polymorphic function that only tests symbol
+*codes*, and UTF-8 encoding replaces each code point by a block of bytes with the same code
+(`utf8_expansion`). -/
+theorem scan_bytes_eq_str (d : Str) :
+    scan (utf8 d) = (scan d).map utf8 :=
+  scan_expand utf8_expansion d
+
+/-- the concrete strict decoder inverts `utf8` (Lean core's round trip) -/
+theorem utf8Decode_utf8 (s : Str) : utf8Decode (utf8 s) = .ok s := by
+  have : (utf8 s).toByteArray = s.utf8Encode := by simp [utf8, List.utf8Encode]
+  simp [utf8Decode, this]
+
+/-- **`urls_from_html` yields the same URLs for a str document and for its UTF-8 bytes**:
+for every document `d`, every `unescape` and every decoder that inverts UTF-8 encoding
+(`bytes.decode("utf-8", errors)` on valid UTF-8, whatever `errors`), the bytes path does not
+raise and returns the list of the str path. -/
+theorem urls_from_html_bytes_eq_str (decode : List UInt8 → Except PyErr Str)
+    (hdec : ∀ s, decode (utf8 s) = .ok s) (unescape : Str → Str) (d : Str) :
+    urlsFromHtmlBytes decode unescape (utf8 d) = .ok (urlsFromHtmlStr unescape d) := by
+  unfold urlsFromHtmlBytes urlsFromHtmlStr
+  rw [scan_bytes_eq_str]
+  generalize scan d = us
+  induction us with
+  | nil => rfl
+  | cons u us ih =>
+    simp only [List.map_cons, List.mapM_cons, hdec, ih]
+    rfl
+
+/-- non-vacuity of the decoder hypothesis: Lean core's strict UTF-8 decoder satisfies it -/
+example (unescape : Str → Str) (d : Str) :
+    urlsFromHtmlBytes utf8Decode unescape (utf8 d) = .ok (urlsFromHtmlStr unescape d) :=
+  urls_from_html_bytes_eq_str utf8Decode utf8Decode_utf8 unescape d
 
 /-! ## Table obligations on the regenerated regexes (re-checked after every regeneration) -/
 
